@@ -1,5 +1,6 @@
 //! C15: forked histories on the real `flag::*` actions with real signals.
 //!   flag b<k> | usize u<k> <v> | shutdown <status> b<k> | set <flag> <v> | raise | unreg <k-th registration>
+//!   nullinfo   — deliver with a NULL siginfo while another thread holds std's stderr lock (must abort at once)
 //!   thread     — start a second, sleeping thread first (exit:77 = only the delivering thread went away)
 //!   reraiser   — a raw action that raises the same signal again, once, from inside the delivery
 //!                (the signal is blocked while its handler runs, so the second delivery starts
@@ -58,6 +59,23 @@ fn run_child(ops: &[String]) {
                     unsafe { libc::_exit(77) };
                 });
                 println!("ok");
+            }
+            ["nullinfo"] => {
+                // the dispatcher entered with a NULL `info` (a foreign handler chaining to it sa_handler-style, a
+                // broken platform) while another thread holds the lock of std's stderr: it has to end the process
+                // with write + abort, at once, and not wait for that lock
+                let (tx, rx) = std::sync::mpsc::channel::<()>();
+                std::thread::spawn(move || {
+                    let _g = std::io::stderr().lock();
+                    let _ = tx.send(());
+                    std::thread::sleep(std::time::Duration::from_millis(8000));
+                    unsafe { libc::_exit(78) };
+                });
+                let _ = rx.recv();
+                use std::io::Write;
+                let _ = std::io::stdout().flush();
+                unsafe { signal_hook_registry::verif::deliver(sig, std::ptr::null_mut(), std::ptr::null_mut()) };
+                println!("returned");
             }
             ["reraiser"] => {
                 let fired = Arc::new(AtomicBool::new(false));
